@@ -1,4 +1,6 @@
 From GV Require Import Common.Outcome C12.HeaderModel C12.Spec C12.Proofs.
+From GV Require Import C12.Conv C12.ConvSpec C12.ConvProofs.
+From GV Require C19.DiagSpec C19.DiagProofs.
 From GV Require C10.YpSpec C10.YpTotal C11.Spec C11.Proofs C11.TotalProofs.
 
 From GV Require Import Common.Outcome.
@@ -114,3 +116,56 @@ Print Assumptions C12_lex_error_spans_target_refuted.
 Theorem C12_lex_error_spans_example : C11.ErrSpansSpec.lex_error_spans_example_stmt.
 Proof. exact C11.ErrSpans.lex_error_spans_example. Qed.
 Print Assumptions C12_lex_error_spans_example.
+
+(* "... so it can always be rendered": the conversion of a parsed %grmtools value
+   into an enum (YaccKind::try_from in ASTWithValidityInfo::from_str /
+   YaccGrammar::from_str; SerialisationFormat::try_from in CTParserBuilder) puts
+   the spans of ALL faulty components into ONE error of SpansKind::Error — up to
+   four of them — so a renderer of what the parsers return must be total in the
+   number of spans whatever the SpansKind *)
+Theorem C12_str_eqb_spec : str_eqb_stmt.
+Proof. exact str_eqb_spec. Qed.
+Print Assumptions C12_str_eqb_spec.
+
+Theorem C12_yacckind_conv_ok_iff : yacckind_conv_ok_iff_stmt.
+Proof. exact yacckind_conv_ok_iff. Qed.
+Print Assumptions C12_yacckind_conv_ok_iff.
+
+Theorem C12_yacckind_conv_err_spans : yacckind_conv_err_spans_stmt.
+Proof. exact yacckind_conv_err_spans. Qed.
+Print Assumptions C12_yacckind_conv_err_spans.
+
+Theorem C12_yk_components_cover : yk_components_cover_stmt.
+Proof. exact yk_components_cover. Qed.
+Print Assumptions C12_yk_components_cover.
+
+Theorem C12_serformat_conv_spec : serformat_conv_spec_stmt.
+Proof. exact serformat_conv_spec. Qed.
+Print Assumptions C12_serformat_conv_spec.
+
+Theorem C12_conv_error_spans_wellformed : conv_error_spans_wellformed_stmt.
+Proof. exact conv_error_spans_wellformed. Qed.
+Print Assumptions C12_conv_error_spans_wellformed.
+
+Theorem C12_yacckind_span_counts_occur : yacckind_span_counts_occur_stmt.
+Proof. exact yacckind_span_counts_occur. Qed.
+Print Assumptions C12_yacckind_span_counts_occur.
+
+Theorem C12_span_labels_total : span_labels_total_stmt.
+Proof. exact span_labels_total. Qed.
+Print Assumptions C12_span_labels_total.
+
+Theorem C12_span_labels_orig_panics_iff : span_labels_orig_panics_iff_stmt.
+Proof. exact span_labels_orig_panics_iff. Qed.
+Print Assumptions C12_span_labels_orig_panics_iff.
+
+Theorem C12_render_invalid_entry_refuted : render_invalid_entry_refuted_stmt.
+Proof. exact render_invalid_entry_refuted. Qed.
+Print Assumptions C12_render_invalid_entry_refuted.
+
+(* the rows printed for each span (C19's mirror of format_spanned, which since
+   87315cb is the path of BOTH span kinds): for any number of spans that are on
+   character boundaries, start <= end, in text order, it does not panic *)
+Theorem C12_format_spanned_any_number_of_spans : C19.DiagSpec.format_spanned_spec_stmt.
+Proof. exact C19.DiagProofs.format_spanned_spec. Qed.
+Print Assumptions C12_format_spanned_any_number_of_spans.
